@@ -9,7 +9,7 @@ import common, enc, gen, sweep, impl
 import segno
 from segno import consts, encoder, writers, utils
 
-TOP = ['theories/Tie/TieTables.v']
+TOP = ['theories/Props/C15.v', 'theories/Tie/TieTables.v']
 RULE = ('random histories of make / make_sequence / save (all kinds) / matrix_iter / terminal calls over a pool of argument sets: every result is '
         'compared with the single-call answer of the extracted model and with the first answer for the same arguments; the same pool is '
         'replayed in a different order and concurrently in 8 threads; deep snapshots of all module-level tables, of the arguments and of '
